@@ -370,7 +370,8 @@ void encode_imm(struct instr *instrc) {
     if (is_dword_destination(instrc) &&
         IN_RANGE(instrc->cons, NEG32BIT_CHECK, MAX_UNSIGNED_32BIT))
       instrc->reduced_imm = true;
-    if ((instrc->opd[0].reg & REG_MASK) == al)
+    // (the accumulator short form has no memory operand)
+    if ((instrc->opd[0].reg & REG_MASK) == al && !instrc->mem_disp)
       instrc->key++;
     // 16 to 64 bit register and 8 bit immediate combination
   } else if (instrc->op_offset == 1 && !TYPE(instrc->key, DATA_TRANSFER)) {
